@@ -201,6 +201,19 @@ func (ex *Exec) verifyFunc(fn *ssa.Function, caseParam string, caseLit Expr) *Fu
 	if fn.Signature.Recv() != nil && len(args) > 0 {
 		env.vars["this"] = TV{args[0], fn.Params[0].Type()}
 	}
+	// a closure under contract: its captured variables hold arbitrary values of their types on entry
+	freeCells := map[*ssa.FreeVar]*Ptr{}
+	for _, fv := range fn.FreeVars {
+		if pt, ok := fv.Type().Underlying().(*types.Pointer); ok {
+			ex.ncell++
+			cell := &Cell{ID: ex.ncell, Name: fv.Name(), T: pt.Elem()}
+			cell.Escaped = true
+			v := ex.freshVal(st, pt.Elem(), "cap_"+fv.Name())
+			st.cells[cell] = v
+			freeCells[fv] = &Ptr{Cell: cell}
+			env.vars[fv.Name()] = TV{v, pt.Elem()}
+		}
+	}
 	// receivers and pointer parameters of the function under proof are non-nil only if the contract says so
 	for _, cl := range c.Clauses {
 		if cl.Kind == "requires" && tagActive(cl.Tags, ex.prop) {
@@ -215,6 +228,9 @@ func (ex *Exec) verifyFunc(fn *ssa.Function, caseParam string, caseLit Expr) *Fu
 	fr := &Frame{fn: fn, env: map[ssa.Value]Val{}, loopCut: map[*ssa.BasicBlock]bool{}, top: true, args: args, stack: []*ssa.Function{fn}, entry: entry}
 	for i, p := range fn.Params {
 		fr.env[p] = args[i]
+	}
+	for fv, p := range freeCells {
+		fr.env[fv] = p
 	}
 	ex.topFrame = fr
 	outs := ex.runBlock(fr, st, fn.Blocks[0], 0)
